@@ -213,6 +213,7 @@ func (g *ogen) failing() onode {
 		"{{ ia % zero }}", "{{ ia % 0.5 }}", "{{ ia % -0.25 }}", "{{ ia / \"0\" }}", "{{ ia % \"0\" }}", "{{ ia % t }}", "{{ ia / t }}", "{{ 1.5 % 0.9 }}", "{{ ia / (zero * ib) }}", "{{ n.x }}", "{{ li[-1] }}", "{{ sa[5:2] }}",
 		"{{ includeIfExists(\"/obroken.jet\") }}", "{{if includeIfExists(\"/obroken.jet\")}}DEAD{{end}}", "{{ includeIfExists(\"/obroken2.jet\", ia) }}", "{{include \"/obroken.jet\"}}", "{{ exec(\"/obroken2.jet\") }}",
 		"{{ li[bu] }}", "{{ ls[bv] }}", "{{ li[bu - ub] }}", "{{ sa[bv] }}",
+		"{{ ia * \"x\" }}", "{{ ia < \"x\" }}", "{{ ia * n }}", "{{ ia - \"x\" }}", "{{ 2 * \"a\" }}", "{{ ia * st }}", "{{ 1.5 * li }}", "{{ ia % \"1.5\" }}", "{{ ub + \"-1\" }}", "{{ ia >= m }}", "{{ ia / np }}",
 		"{{ m[n] }}", "{{ st[n] }}", "{{ li[n] }}", "{{ ms[n].Name }}", "{{ m[st.I] }}", "{{ li[1:4] }}", "{{ li[:5] }}", "{{ ls[0:4] }}", "{{ len(li[:4]) }}", "{{ li[4:] }}", "{{range li[2:4]}}x{{end}}", "{{ li[3] }}", "{{ ls[3] }}"})
 	if g.named && g.r.Chance(35) {
 		act = g.r.Pick([]string{"{{ arr[0:4] }}", "{{ arr[3] }}", "{{ arr[2:1] }}", "{{ parr[0:1] }}", "{{ nf(\"a\") }}", "{{ \"a\" | nf }}", "{{ hold.F(1) }}", "{{ njf(1) }}", "{{ 1 | njf }}",
